@@ -34,7 +34,7 @@ struct Args {
 
 /// Parsing, analysing and formatting recurse over the nesting of the document.
 /// The default thread stack overflows at a nesting depth of less than one hundred.
-const THREAD_STACK_SIZE: usize = 512 * 1024 * 1024;
+const THREAD_STACK_SIZE: usize = 64 * 1024 * 1024;
 
 fn main() -> Result<()> {
     tokio::runtime::Builder::new_multi_thread()
